@@ -21,7 +21,7 @@ EVID = os.path.join(VERIF, "evidence")
 ALLOWED_AXIOMS = {"propext", "Classical.choice", "Quot.sound"}
 FORBIDDEN = re.compile(r"\b(sorry|admit|native_decide|bv_decide|implemented_by|unsafe)\b|^\s*axiom\s|maxHeartbeats\s+0\b")
 NCPU = os.cpu_count() or 4
-RUN_TIMEOUT = int(os.environ.get("VERIF_RUN_TIMEOUT", "900"))
+RUN_TIMEOUT = int(os.environ.get("VERIF_RUN_TIMEOUT", "900"))   # thorough tier; the quick tier uses 120 s (set in main)
 
 sys.path.insert(0, os.path.join(VERIF, "tools"))
 
@@ -302,6 +302,11 @@ def main():
     args = ap.parse_args()
     pid = args.prop.upper()
     tier = "thorough" if args.tier.startswith("t") else "quick"
+    global RUN_TIMEOUT
+    if tier == "quick" and "VERIF_RUN_TIMEOUT" not in os.environ:
+        # a quick run of either side takes seconds; an implementation that no longer terminates on some input must not hold the
+        # check for a quarter of an hour (the lines it never answered count as failures)
+        RUN_TIMEOUT = 120
     seed = int(os.environ.get("VERIF_SEED", "20260930") or 0)
     t_start = time.time()
     mod = importlib.import_module("props." + pid.lower())
